@@ -3,6 +3,7 @@ from vlib import run_pair
 
 PID = "C14"
 MODEL_VOS = ["model/Sizes.vo"]
+USES_TRANSLATED = True     # props/C14.v has theorems over gen/Translated.v: a translator failure is a problem of this check
 ASSUMPTIONS = [
     "whole-session traffic: driver e2e (-prop C14) runs real client and server Muxes over simnet UDP/TCP under virtual time for MTU x padding x low-entropy mode x write sizes and measures every emitted datagram against the sender's MTU and every decoded length field against its limit (oracle only; decoded by the independent refcodec)",
     "MTU within the range both config validators accept (recovered behaviourally: 1280..1500); outside it the bound is false (C14_mtu_needs_validated_range) and maxFragmentSize can be 0 (division by zero in writeChunk) - not claimed",
